@@ -486,10 +486,10 @@ def check_fit_variogram(ctx, c):
     xs = w.add("x_data", _layout(rng, x, c["layout"]))
     ys = w.add("y_data", _layout(rng, y, c["layout"]) if c["layout"] != "list" else np.ascontiguousarray(y))
     kw = {}
-    mode = str(rng.choice(["none", "array", "inv", "callable"]))
+    mode = str(rng.choice(["none", "array", "array", "inv", "callable"]))
     if mode == "array":
         wts = rng.uniform(0.5, 2, size=x.size)
-        if rng.random() < 0.5:
+        if rng.random() < 0.85:
             # value classes a "clean-up" step could be tempted to repair in place: zero and tiny weights
             wts[rng.integers(0, x.size, size=2)] = 0.0
             wts[int(rng.integers(0, x.size))] = 1e-300
